@@ -13,7 +13,7 @@ HOOKS = dict(
     add_only=True,
 )
 
-CHECKS_IDS = ["C01", "C02", "C06", "C07"]
+CHECKS_IDS = ["C01", "C02", "C06", "C07", "C16"]
 
 ENGINES = [
     dict(name="mc", path="/verif/mc",
@@ -74,9 +74,23 @@ CHECKS = {
         note="Bound: depth 2 full / 3 reduced alphabet (quick), 3 / 4 (thorough); weights from {1,-1,2,0,cancelling,1/3*3}. "
              "Oracle is canonical-form comparison in mc/refalg.py.",
     ),
+    "C16": dict(
+        category="model_checking",
+        technique="explicit enumeration of all histories <= 3 (4) over {real solve, injected 'no value' / 'error' solver "
+                  "answers, edits to infeasible/unbounded and back, objects from new leaves, MOSEK-path and trace solves} "
+                  "against a two-state reference model; plus all object kinds x accessors before a solve, all failing "
+                  "grammar models x back-ends, all invalid option values",
+        text="Every accessor (eval / eval_dual) of every kind of object (leaf, derived, product, constraint, LMI, class and "
+             "partition constraint, objects built from new leaves) is probed in every state reached by the enumerated "
+             "histories and compared with the reference 'has a current solution / has none': ValueError exactly, never a "
+             "number, never another exception. Failed solves must return None on every back-end and solver; invalid "
+             "options must raise.",
+        note="Bound: depth 3 on 2 base models (quick), 4 on 3 (thorough); 48 failing models x 4 configurations. Failing "
+             "models are judged only when the solver itself reports unbounded/infeasible. MOSEK path = stand-in.",
+    ),
 }
 
 _PENDING = "check not built yet in this session (planned, see DESIGN.md section 4); not claimed until it has run clean and caught a mutant"
 NOT_APPLICABLE = {k: _PENDING for k in
                   ["C03", "C04", "C05", "C08", "C09", "C10", "C11", "C12", "C13", "C14", "C15",
-                   "C16", "C17"]}
+                   "C17"]}
